@@ -23,6 +23,9 @@
 (*   [k |-> "seq", c |-> "tuple"|"list", ms |-> <<[many, t]..>>]  SequenceValue *)
 (*   [k |-> "subclass", t |-> T]            SubclassValue / type[T]        *)
 (*   [k |-> "union", ms |-> <<T..>>]        MultiValuedValue; Never = <<>> *)
+(*   [k |-> "typeddict", c |-> "dict", items |-> <<[key, req, ro, t]..>>]  *)
+(*         TypedDictValue (open: no extra_keys); req / ro = Required /     *)
+(*         ReadOnly                                                        *)
 (***************************************************************************)
 EXTENDS Naturals, Sequences, FiniteSets, TLC
 
@@ -95,6 +98,12 @@ Objects == ScalarObjs \cup ClassObjs \cup ContainerObjs
 
 StrObjs == {o \in ScalarObjs : o.c = "str"}
 
+\* dicts with the string keys "a" / "b" (objects for the TypedDict terms; used by Assign.tla only)
+SB == Obj("str", "b")
+TDObjs == {Cont("dict", <<KV(SA, NONE)>>), Cont("dict", <<KV(SA, SA)>>), Cont("dict", <<KV(SB, SA)>>),
+           Cont("dict", <<KV(SA, I1), KV(SB, SA)>>), Cont("dict", <<KV(SA, I1), KV(SB, NONE)>>),
+           Cont("dict", <<KV(SA, NONE), KV(SB, SA)>>), Cont("dict", <<KV(SA, BT), KV(SB, SA)>>)}
+
 IsInstance(o, c) == IsSubclass(o.c, c)
 
 \* Python's == on the objects of the universe: numbers compare by value across int / bool / float, containers
@@ -135,6 +144,12 @@ Many(t) == [many |-> TRUE, t |-> t]
 SubclassT(t) == [k |-> "subclass", t |-> t]
 Union(ms) == [k |-> "union", ms |-> ms]
 Never == Union(<< >>)
+TD(items) == [k |-> "typeddict", c |-> "dict", items |-> items]
+EntX(key, req, ro, t) == [key |-> key, req |-> req, ro |-> ro, t |-> t]
+Ent(key, req, t) == EntX(key, req, FALSE, t)
+\* DictIncompleteValue: [k |-> "dictinc", c |-> "dict", kvs |-> <<[key, val, many, req]..>>] (KVPair: is_many, is_required)
+DictInc(kvs) == [k |-> "dictinc", c |-> "dict", kvs |-> kvs]
+Pair(key, val, many, req) == [key |-> key, val |-> val, many |-> many, req |-> req]
 
 (***************************************************************************)
 (* Member(o, T)                                                            *)
@@ -176,6 +191,14 @@ Member(o, T) ==
       [] T.k = "seq"     -> IsInstance(o, T.c) /\ o.c \in {"list", "tuple", "set"} /\ MatchShape(o.items, T.ms, T)
       [] T.k = "subclass" -> o.c = "type" /\ ClassWithin(o.v, T.t)
       [] T.k = "union"   -> \E i \in 1..Len(T.ms) : Member(o, T.ms[i])
+      \* an (open) TypedDict: a dict with string keys in which every declared key that is present holds a member of
+      \* the declared type and every required key is present; undeclared keys may hold anything
+      [] T.k = "typeddict" ->
+            /\ o.c = "dict" /\ \A kk \in DictKeys(o) : kk.c = "str"
+            /\ \A i \in 1..Len(T.items) :
+                  LET e == T.items[i]
+                      hits == {j \in 1..Len(o.items) : o.items[j].key.c = "str" /\ o.items[j].key.v = e.key}
+                  IN IF hits = {} THEN ~e.req ELSE \A j \in hits : Member(o.items[j].val, e.t)
 
 Members(T) == {o \in Objects : Member(o, T)}
 
@@ -208,6 +231,12 @@ BigLiteral == Union(<<Known(I0), Known(I1), Known(BT), Known(BF), Known(F15), Kn
 D1Static == TypedAtoms \cup KnownAtoms \cup GenericTerms \cup SeqTerms \cup SubclassTerms \cup UnionTerms
             \cup {NewType("N", "int"), Never, BigLiteral}
 D1 == D1Static \cup {AnyT}
+
+\* TypedDict terms over the keys a (int or Optional[int]; required or not; read-only or not) and b (absent, required
+\* str, non-required str)
+OptInt == Union(<<Typed("int"), Known(NONE)>>)
+TDTerms == {TD(<<EntX("a", r, ro, ty)>> \o bs) : r \in BOOLEAN, ro \in BOOLEAN, ty \in {Typed("int"), OptInt},
+                                                 bs \in {<< >>, <<Ent("b", TRUE, Typed("str"))>>, <<Ent("b", FALSE, Typed("str"))>>}}
 
 \* depth-2 terms: containers/unions over depth-1 composites (used by simulation / thorough runs)
 Mid == {Generic("list", <<Typed("int")>>), Generic("tuple", <<Typed("str")>>), Generic("tuple", <<Typed("int")>>),
